@@ -110,4 +110,34 @@ def inline_round(ctx):
     cands = {k: site for k, site in cands.items() if site[0] in bearing}
     if not cands:
         return f, []
+    # demand-driven: when the failed resolvers said what they were looking for, only the helpers that (transitively, through other
+    # unpinned helpers) contain it are inlined in this round; without hints every candidate goes in
+    from . import roles as _roles
+    hints = list(_roles.WANTED)
+    if hints:
+        R = ctx.roles
+
+        def matches(b, depth=0):
+            if any(_safe(p, b) for p in hints):
+                return True
+            if depth < 4:
+                for _bi, _t, cb in R.local_callees(b):
+                    if cb.key not in pins and cb.key != b.key and matches(cb, depth + 1):
+                        return True
+                for cl in f.closures_of(b.path):
+                    if matches(cl, depth + 1):
+                        return True
+            return False
+        chosen = {k: site for k, site in cands.items() if matches(f.mir[k])}
+        # hints that no helper satisfies: what was lost is not hidden in an extracted helper, inlining would only blur the roles
+        cands = chosen
+        if not cands:
+            return f, []
     return inline.inline_selected(f, cands)
+
+
+def _safe(pred, b):
+    try:
+        return bool(pred(b))
+    except Exception:
+        return False
